@@ -305,7 +305,7 @@ func memGen(c *Ctx) {
 	if c.Want("seq") {
 		// random write / read sequences over at most 48 distinct addresses per scenario
 		rng := c.Rand(603)
-		count := 60
+		count := 150
 		if c.Thorough() {
 			count = 1500
 		}
